@@ -8,6 +8,7 @@ import (
 	"go/token"
 	"go/types"
 	"math/big"
+	"regexp"
 	"strings"
 	"sync"
 
@@ -52,6 +53,7 @@ type funcInfo struct {
 	index   map[ssa.Value]int
 	n       int
 	headers map[int]bool
+	ipdom   []int
 	name    string
 	inRepo  bool
 	pos     string
@@ -120,12 +122,11 @@ func (e *Engine) info(fn *ssa.Function) *funcInfo {
 	return v.(*funcInfo)
 }
 
+var pathPrefixRe = regexp.MustCompile(`(?:[A-Za-z0-9_.\-]+/)+`)
+
 // funcName gives a stable short name: "btc.NewTx", "(*btc.Tx).Serialize", "btc.NewTx$1"
 func funcName(fn *ssa.Function) string {
-	s := fn.String()
-	// strip module path prefix for readability
-	s = strings.ReplaceAll(s, "github.com/piotrnar/gocoin/", "")
-	return s
+	return pathPrefixRe.ReplaceAllString(fn.String(), "")
 }
 
 func (r *Run) goPanic(msg string) {
@@ -338,6 +339,7 @@ func (r *Run) runDefers(fr *Frame) {
 
 func (r *Run) execFrom(fr *Frame, b *ssa.BasicBlock) Value {
 	var prev *ssa.BasicBlock
+	skipPhis := false
 	for {
 		// loop accounting
 		if fr.info.headers[b.Index] && prev != nil && prev.Index >= b.Index {
@@ -355,7 +357,15 @@ func (r *Run) execFrom(fr *Frame, b *ssa.BasicBlock) Value {
 		}
 		// phis first (parallel assignment)
 		nphi := 0
-		if prev != nil {
+		if skipPhis {
+			skipPhis = false
+			for _, ins := range b.Instrs {
+				if _, ok := ins.(*ssa.Phi); !ok {
+					break
+				}
+				nphi++
+			}
+		} else if prev != nil {
 			pi := -1
 			for i, p := range b.Preds {
 				if p == prev {
@@ -386,6 +396,13 @@ func (r *Run) execFrom(fr *Frame, b *ssa.BasicBlock) Value {
 			switch x := ins.(type) {
 			case *ssa.If:
 				c := r.get(fr, x.Cond).(*Term)
+				if !c.IsConst() {
+					if J, ok := r.tryMerge(fr, b, c); ok {
+						next = J
+						skipPhis = true
+						break
+					}
+				}
 				if r.branch(c) {
 					next = b.Succs[0]
 				} else {
@@ -919,6 +936,12 @@ func (r *Run) makeSlice(fr *Frame, x *ssa.MakeSlice) Value {
 	if r.branch(neg) {
 		r.goPanic("runtime error: makeslice: len out of range")
 	}
+	if lb, ok := r.loopBound[fr.info.name]; ok && !ct.IsConst() {
+		// the stated shape bound of this function also bounds the lengths it allocates
+		if r.branch(r.ts.Slt(r.ts.Const(64, uint64(lb)), ct)) {
+			panic(&pathEnd{kind: "cut-bound", msg: fr.info.name + " make length"})
+		}
+	}
 	n := int(r.concretize(lt, "make len"))
 	c := int(r.concretize(ct, "make cap"))
 	if c > 1<<24 {
@@ -979,15 +1002,11 @@ func (r *Run) strIndex(s StrV, idx *Term, typ types.Type) Value {
 	if i64.IsConst() {
 		return s.b[i64.k]
 	}
-	var res *Term
-	for i := n - 1; i >= 0; i-- {
-		if res == nil {
-			res = s.b[i]
-		} else {
-			res = r.ts.Ite(r.ts.Eq(i64, r.ts.Const(64, uint64(i))), s.b[i], res)
-		}
+	elems := make([]Value, n)
+	for i := range elems {
+		elems[i] = s.b[i]
 	}
-	return res
+	return r.selectTerm(elems, i64, 0, n)
 }
 
 func (r *Run) indexAddr(fr *Frame, x *ssa.IndexAddr) Value {
